@@ -895,6 +895,10 @@ def _lmc_latent_dim(case, ctx, g):
                     got = got.reshape(B, T, N_, T, N_).permute(0, 2, 1, 4, 3).reshape(B, N_ * T, N_ * T)
                 ctx.close("lmc_mixing", out.mean, mean.reshape(out.mean.shape), (1e-7, 1e-7), cls=cls + ":mean")
                 ctx.close("lmc_mixing", got, (C4 + jit * torch.eye(N_ * T)).reshape(got.shape), (1e-7, 1e-7), cls=cls + ":cov", alt=C4.reshape(got.shape))
+            # KL: the latent KLs summed over the LATENT dimension (one value per remaining batch element)
+            kl = m.variational_strategy.kl_divergence()
+            ctx.close("lmc_mixing", kl, base.kl_divergence().sum(0).reshape(kl.shape) if kl.numel() == B else base.kl_divergence().sum(0), (1e-9, 1e-9), cls=cls + ":kl_is_sum_over_latents")
+            ctx.expect("lmc_mixing", tuple(kl.shape) == (B,), f"kl_divergence() has shape {tuple(kl.shape)}, expected ({B},)")
         except Exception as e:
             ctx.fail("lmc_mixing", f"LMC(latent_dim=-2), variational batch ({Q},{B}) raised {type(e).__name__}: {str(e)[:140]}", "raise", exc=type(e).__name__, lazy=case["lazy"])
     ctx.cell({k: v for k, v in case.items() if k != "seed"})
